@@ -206,6 +206,17 @@ def validate_models(H, cfgs, L, report):
     return n, None
 
 
+def _validate_task(args):
+    """model validation of one configuration (worker process)"""
+    prop, cfg = args
+    rep = []
+    try:
+        n, err = validate_models(harness_module(prop), [cfg], get_loader(None, None), rep)
+    except Exception as ex:
+        n, err = 0, "model validation crashed: %s\n%s" % (ex, traceback.format_exc()[-1200:])
+    return n, err, rep
+
+
 def _cvc5_one(item):
     import subprocess
     import tempfile
@@ -293,11 +304,17 @@ def main(argv=None):
     nvalid, err = (0, None)
     fixture_violations = []
     if not patches:
-        try:
-            fixture_violations = []
-            nvalid, err = validate_models(H, cfgs, L0, fixture_violations)
-        except Exception as ex:
-            err = "model validation crashed: %s\n%s" % (ex, traceback.format_exc()[-1200:])
+        if len(cfgs) > 8 and args.jobs > 1:
+            with mp.get_context("fork").Pool(max(1, args.jobs)) as vpool:
+                for n1, e1, rep1 in vpool.imap(_validate_task, [(prop, c) for c in cfgs], chunksize=1):
+                    nvalid += n1
+                    err = err or e1
+                    fixture_violations.extend(rep1)
+        else:
+            try:
+                nvalid, err = validate_models(H, cfgs, L0, fixture_violations)
+            except Exception as ex:
+                err = "model validation crashed: %s\n%s" % (ex, traceback.format_exc()[-1200:])
     if err:
         inconclusive.append(err)
 
